@@ -109,6 +109,7 @@ type c12outcome struct {
 	h        int
 	toff     time.Duration
 	ambient  int
+	dirstate int // 0 empty out dir, 1 user Go files of the same package already there, 2 stale output of another invocation there
 	events   []string
 	skipped  string
 }
@@ -139,6 +140,7 @@ func (e *c12env) execC12(inv gencore.Invocation, other *gencore.Invocation, t *t
 	}
 	o.toff = clockOffsets[t.Choose(len(clockOffsets), "clock")]
 	o.ambient = t.Choose(3, "ambient")
+	o.dirstate = t.Choose(3, "outdir-state")
 	verifhook.Masked = map[int]bool{}
 	for _, m := range e.masked {
 		verifhook.Masked[m] = true
@@ -147,6 +149,16 @@ func (e *c12env) execC12(inv gencore.Invocation, other *gencore.Invocation, t *t
 
 	in, out := e.freshDirs()
 	defer os.RemoveAll(filepath.Dir(in))
+	switch o.dirstate {
+	case 1:
+		os.MkdirAll(out, 0o755)
+		os.WriteFile(filepath.Join(out, "zz_user_logging.go"), []byte(siblingSource(inv.Package)), 0o644)
+	case 2:
+		if other != nil {
+			oin := filepath.Join(filepath.Dir(in), "other-in")
+			gencore.RunInProcess(*other, oin, out, gencore.Sched{Tape: tape.Zero(), FaultAt: -1}, e.root)
+		}
+	}
 	var r gencore.Result
 	switch o.h {
 	case 1:
@@ -189,6 +201,14 @@ func (e *c12env) execC12(inv gencore.Invocation, other *gencore.Invocation, t *t
 		o.violated, o.class = true, "outcome"
 		o.detail = fmt.Sprintf("sorted-order run: err=%q panic=%q; this run: err=%q panic=%q", b.err, b.panic, r.Err, r.Panic)
 	default:
+		if o.dirstate != 0 {
+			// only the files this invocation calls for are compared; what else lies in the directory is C19's subject
+			for n := range snap {
+				if _, ok := b.files[n]; !ok {
+					delete(snap, n)
+				}
+			}
+		}
 		if n, c, d := gencore.DiffSnap(b.files, snap); n != "" {
 			o.violated, o.class = true, "differs"
 			o.detail = fmt.Sprintf("%s %s %s", n, c, d)
@@ -217,6 +237,9 @@ func (e *c12env) keyOf(o c12outcome) string {
 	}
 	if o.h != 0 {
 		return historyNames[o.h]
+	}
+	if o.dirstate != 0 {
+		return "outdir-state:" + []string{"", "user-go-files-present", "stale-output-of-another-invocation"}[o.dirstate]
 	}
 	return "uncontrolled"
 }
@@ -260,9 +283,9 @@ func runC12(job *Job, res *Result) {
 		if len(o.deviated) > 0 {
 			res.Counters["runs_with_deviating_order"]++
 		}
-		nontrivial := len(o.deviated) > 0 || o.h != 0 || o.toff != 0 || o.ambient != 0
+		nontrivial := len(o.deviated) > 0 || o.h != 0 || o.toff != 0 || o.ambient != 0 || o.dirstate != 0
 		if nontrivial && o.skipped == "" {
-			e.distinct[hash64(inv.Hash(), fmt.Sprint(o.deviated), strings.Join(o.events, "|"), fmt.Sprint(o.h, o.toff, o.ambient))] = true
+			e.distinct[hash64(inv.Hash(), fmt.Sprint(o.deviated), strings.Join(o.events, "|"), fmt.Sprint(o.h, o.toff, o.ambient, o.dirstate))] = true
 		}
 		e.logH = hash64(fmt.Sprint(e.logH), fmt.Sprint(run), fmt.Sprint(t.Rec), fmt.Sprint(o.violated, o.class, o.detail), strings.Join(o.events, "|"))
 		if len(res.Samples) < 3 && len(o.deviated) > 0 {
@@ -362,7 +385,7 @@ func (e *c12env) shrinkC12(run int, inv gencore.Invocation, other *gencore.Invoc
 	e.masked = masked
 	o2 := e.execC12(inv, other, tr)
 	e.masked = nil
-	trace = append(trace, fmt.Sprintf("history=%s clock_offset=%s ambient=%d", historyNames[o2.h], o2.toff, o2.ambient))
+	trace = append(trace, fmt.Sprintf("history=%s clock_offset=%s ambient=%d outdir_state=%d", historyNames[o2.h], o2.toff, o2.ambient, o2.dirstate))
 	trace = append(trace, o2.events...)
 	rp := Replay{Property: "C12", FindingKey: key, Seed: e.job.Seed, Run: run, Invocation: &inv, Tape: min, Masked: masked, Trace: trace,
 		Observed: o.class + ": " + o.detail, Expected: "byte-identical files to the sorted-order fresh run of the same invocation", SiteTable: e.job.Sites}
@@ -382,4 +405,30 @@ func replayC12(job *Job, res *Result) {
 		res.Notes = append(res.Notes, o.class+": "+o.detail)
 	}
 	e.finish()
+}
+
+// siblingSource is a hand-written Go file of the same package that imports third-party packages under
+// names that collide with standard-library packages the generated code refers to.
+func siblingSource(pkg string) string {
+	return "package " + pkg + `
+
+import (
+	fmt "example.com/fake/fmtx"
+	json "example.com/fake/jsoniter"
+	log "example.com/fake/logrus"
+	http "example.com/fake/httpx"
+	strings "example.com/fake/stringsx"
+)
+
+func zzUserLogging() {
+	log.Println(fmt.Sprintf("%v %v", strings.HasPrefix("a", "b"), strings.Index("a", "b")))
+	_ = fmt.Errorf
+	_ = json.Marshal
+	_ = json.Unmarshal
+	_ = json.NewDecoder
+	_ = json.NewEncoder
+	_ = http.MethodGet
+	_ = strings.TrimPrefix
+}
+`
 }
